@@ -8,6 +8,7 @@ package main
 import (
 	"context"
 	"errors"
+	"math/rand"
 	"net"
 	"sync"
 	"time"
@@ -38,7 +39,7 @@ func scenarioLateLoop() {
 	})
 	kafka.VerifSetGroupWire(false)
 	kafka.VerifSetGroupHandler(mock.Handle)
-	s := &scen{mock: mock, log: log, sync: true, topics: []string{"t"}, next: map[string]int64{}, closeCh: make(chan struct{})}
+	s := &scen{rng: rand.New(rand.NewSource(1)), mock: mock, log: log, sync: true, topics: []string{"t"}, next: map[string]int64{}, closeCh: make(chan struct{})}
 	s.r = kafka.NewReader(kafka.ReaderConfig{
 		Brokers: []string{"b:9092"}, GroupID: "grp", Topic: "t",
 		HeartbeatInterval: 2 * time.Millisecond, JoinGroupBackoff: 2 * time.Millisecond,
